@@ -35,8 +35,8 @@ ASSUMPTIONS = [
 
 def budget(tier):
     if tier == 'thorough':
-        return {'seeds': 80000, 'wall': 840, 'chunk': 50}
-    return {'seeds': 5000, 'wall': 150, 'chunk': 20}
+        return {'seeds': 120000, 'wall': 900, 'chunk': 100}
+    return {'seeds': 8000, 'wall': 200, 'chunk': 50}
 
 
 SKIP_VARIANTS = [
@@ -324,7 +324,7 @@ def _expected_translation(G, kind, X, sk):
     if kind == 'item-delete':
         if sk.get('ignore_missing'):
             return None
-        return ('PathDeleteError', None) if issubclass(X, IndexError) else ('self', None)
+        return ('PathDeleteError', None) if issubclass(X, (KeyError, IndexError)) else ('self', None)
     if kind == 'attr-delete':
         if sk.get('ignore_missing'):
             return None
